@@ -245,6 +245,39 @@ func c11RacePass(tier string) {
 			return false
 		})
 	}
+	// a completed future (holding a value, and one that threw) bound in the shared environment and
+	// dereferenced by many evaluations at the same moment: each gets what it gets alone
+	{
+		sh := env.NewSubordinateEnv(base)
+		for _, t := range []string{"(def sharedf (future (list 4 2)))", "(def sharedt (future (throw {:code 42})))", "(deref sharedf)", "(try (deref sharedt) (catch e e))"} {
+			lx.Eval(context.Background(), lx.MustRead(t), sh)
+		}
+		progs := []string{"(do (def mine-%d (deref sharedf)) mine-%d)", "(try (deref sharedt) (catch e%d (list e%d)))"}
+		var bad sync.Map
+		var bodies []func()
+		for g := 0; g < 8; g++ {
+			pt := progs[g%2]
+			ast := lx.MustRead(fmt.Sprintf(pt, g, g))
+			r0, err0, p0 := lx.Eval(context.Background(), ast, sh)
+			want := fmt.Sprint(r0, err0, p0)
+			bodies = append(bodies, func() {
+				for k := 0; k < 3000; k++ {
+					r, err, p := lx.Eval(context.Background(), ast, sh)
+					if got := fmt.Sprint(r, err, p); got != want {
+						bad.Store(want, got)
+						return
+					}
+				}
+			})
+		}
+		raceRun(bodies)
+		total++
+		bad.Range(func(k, v any) bool {
+			fmt.Fprintf(os.Stderr, "RACEPASS-VIOLATION a completed future dereferenced by several evaluations at once gives one of them something else than alone\n")
+			fmt.Fprintf(os.Stderr, "  (%v instead of %v)\n", v, k)
+			return false
+		})
+	}
 	fmt.Fprintf(os.Stderr, "RACEPASS-ITERATIONS %d\n", total)
 }
 
